@@ -10,7 +10,11 @@ import (
 func genUtxo(g *hx.Gen, r *hx.Rand) {
 	g.Emit("reset")
 	max := r.Pick(0, 1, 2, 3, 3, 5)
-	g.Emit("u.reset %d", max)
+	if r.Chance(10) {
+		g.Emit("u.reset %d 1", max) // MemoryFirst: NewUTXOCache itself sets the limit
+	} else {
+		g.Emit("u.reset %d 0", max)
+	}
 	ntx := 2 + r.Intn(5)
 	nouts := map[int]int{}
 	for id := 1; id <= ntx; id++ {
@@ -103,8 +107,10 @@ func genIdx(g *hx.Gen, r *hx.Rand) {
 				g.Emit("i.disconnect %s", strings.Join(ss, ","))
 				height--
 			}
-		case w < 60:
+		case w < 58:
 			g.Emit("i.trim")
+		case w < 62:
+			g.Emit("i.roundtrip")
 		default:
 			g.Emit("i.fetch %d", 1+r.Intn(next+1))
 		}
